@@ -529,7 +529,15 @@ def run_case(case, drv=None):
                                    '%s interval %d of %d (steps %d..%d)' % (tag, k + 1, len(op.ops), steps[0], steps[-1]), bends, full_report=False)
                 r['violations'] += v
                 r['nontrivial'] = r['nontrivial'] or moved
-            if same and rep is not None:
+            # steps of the storage's window without any variable: a coarse storage drops the grid steps after the last coarse cut of
+            # EVERY interval (finding F-19b of C13/C19); the read-out on the whole horizon counts inflow there, the intervals did not
+            s_ = instant(scen.dec(case['args']['start']), tz) if 'start' in case['args'] else None
+            e_ = instant(scen.dec(case['args']['end']), tz) if 'end' in case['args'] else None
+            used = set(m['step'] for m in rows)
+            dropped = [t for t in range(tg.T) if (s_ is None or tp[t] >= s_) and (e_ is None or tp[t] < e_) and t not in used]
+            if same and dropped:
+                r['features'].append('split:coarse-remainder-in-intervals:whole-horizon-level-not-compared')
+            if same and rep is not None and not dropped:
                 # start level = end level: the intervals join to one physical course over the whole horizon
                 v, _ = physics(case, tp, dt, rows, x, list(range(tg.T)), rep, tag + ' whole horizon', None)
                 r['violations'] += [q for q in v if q['oracle'] in ('storage.reported', 'storage.level_bounds', 'storage.end_level')]
